@@ -94,3 +94,85 @@ contract(
     ensures=["result == any(list1[i] is not None and any(list2[j] is not None and bytes_overlap(list1[i], list2[j]) for j in range(len(list2))) for i in range(len(list1)))"],
     returns=PyBool,
 )
+
+
+# ===== block-job geometry for BLOCKDEP (C04) ============================================================================
+from ethosu.vela.api import NpuPadding  # noqa: E402
+from ethosu.vela.architecture_features import Accelerator, Block, Rect, create_default_arch  # noqa: E402
+from ethosu.vela.operation import Kernel, PointXY, PointXYZ  # noqa: E402
+
+REGISTRY.declare_struct(Rect)
+COORD = TInt(lo=0, hi=65535)
+RECT = TStruct(Rect, x=COORD, y=COORD, z=COORD, x2=COORD, y2=COORD, z2=COORD)
+BLOCK = TStruct(Block, width=TInt(lo=1, hi=65536), height=TInt(lo=1, hi=65536), depth=TInt(lo=1, hi=65536))
+KERNEL = TStruct(Kernel, width=TInt(lo=1, hi=64), height=TInt(lo=1, hi=64),
+                 stride=TTuple(TInt(lo=1, hi=3), TInt(lo=1, hi=3), cls=PointXY), dilation=TTuple(TInt(lo=1, hi=2), TInt(lo=1, hi=2), cls=PointXY))
+PADDING = TTuple(TInt(lo=0, hi=127), TInt(lo=0, hi=127), TInt(lo=0, hi=128), TInt(lo=0, hi=128), cls=NpuPadding)
+
+
+def nblocks(extent, blk):
+    return (extent + blk - 1) // blk
+
+
+contract(
+    "ethosu.vela.register_command_stream_util:get_offset_block_coords", props=["C04"],
+    types=dict(area=RECT, block=BLOCK, offset=TInt(lo=-8, hi=2**31),
+               xb=PyInt, yb=PyInt, zb=PyInt),   # ghosts: block indices per axis
+    requires=["area.x <= area.x2 and area.y <= area.y2 and area.z <= area.z2"],
+    ensures=[
+        # None exactly when the (normalised) index is past the last block
+        "(result is None) == ((offset if offset >= 0 else offset + nblocks(area.x2 - area.x + 1, block.width) * nblocks(area.y2 - area.y + 1, block.height)"
+        " * nblocks(area.z2 - area.z + 1, block.depth)) >= nblocks(area.x2 - area.x + 1, block.width) * nblocks(area.y2 - area.y + 1, block.height)"
+        " * nblocks(area.z2 - area.z + 1, block.depth))",
+        # blocks are numbered depth-fastest, then width, then height: index == (yb * W + xb) * D + zb
+        "implies(result is not None and offset >= 0 and 0 <= zb < nblocks(area.z2 - area.z + 1, block.depth) and 0 <= xb < nblocks(area.x2 - area.x + 1, block.width)"
+        " and 0 <= yb and offset == (yb * nblocks(area.x2 - area.x + 1, block.width) + xb) * nblocks(area.z2 - area.z + 1, block.depth) + zb,"
+        " result == PointXYZ(area.x + xb * block.width, area.y + yb * block.height, area.z + zb * block.depth))",
+        # the block starts inside the area
+        "implies(result is not None and offset >= 0, area.x <= result.x <= area.x2 and area.y <= result.y and area.z <= result.z <= area.z2)",
+    ],
+    returns=TOpt(TTuple(PyInt, PyInt, PyInt, cls=PointXYZ)),
+)
+
+ARCHS = {a.name: create_default_arch(a) for a in Accelerator}
+# distinct (ifm_ublock, ofm_block_max) pairs of the six accelerators
+_UB = {}
+for _n, _a in ARCHS.items():
+    _UB.setdefault((_a.ifm_ublock.width, _a.ifm_ublock.height, _a.ofm_block_max.width, _a.ofm_block_max.height), []).append(_n)
+
+contract(
+    "ethosu.vela.register_command_stream_util:get_prev_job_output_volume", props=["C04"],
+    types=dict(ofm=RECT, ofm_block=BLOCK, block_offset=TInt(lo=0, hi=3)),
+    inline=["ethosu.vela.register_command_stream_util:get_offset_block_coords"],
+    requires=["ofm.x <= ofm.x2 and ofm.y <= ofm.y2 and ofm.z <= ofm.z2"],
+    ensures=[
+        # the volume is exactly one OFM block (start + block dimensions) and counts as one job
+        "implies(result is not None, result[1] == PointXYZ(result[0].x + ofm_block.width, result[0].y + ofm_block.height, result[0].z + ofm_block.depth) and result[2] == 1)",
+        "implies(result is not None, result[0] == ru.get_offset_block_coords(ofm, ofm_block, -1 - block_offset))",
+        "(result is None) == (ru.get_offset_block_coords(ofm, ofm_block, -1 - block_offset) is None)",
+    ],
+)
+
+contract(
+    "ethosu.vela.register_command_stream_util:get_first_job_input_volume", props=["C04"],
+    variants={"/".join(names): dict(arch=TConst(ARCHS[names[0]]), ifm=RECT, ofm=RECT, ifm_block_depth=TInt(lo=1, hi=65536), ofm_block=BLOCK,
+                                      kernel=KERNEL, padding=PADDING, block_offset=TInt(lo=0, hi=3)) for names in _UB.values()},
+    inline=["ethosu.vela.register_command_stream_util:get_offset_block_coords"],
+    requires=["ifm.x <= ifm.x2 and ifm.y <= ifm.y2 and ifm.z <= ifm.z2", "ofm.x <= ofm.x2 and ofm.y <= ofm.y2 and ofm.z <= ofm.z2",
+              # kernels taller / wider than the maximum block are decomposed into sub-kernels by the hardware (outside this lemma)
+              "(kernel.height - 1) * kernel.dilation.y + 1 <= arch.ofm_block_max.height", "(kernel.width - 1) * kernel.dilation.x + 1 <= arch.ofm_block_max.width"],
+    ensures=[
+        # the returned volume CONTAINS the receptive field of the OFM block the job computes:
+        #   rows  [max(0, oy * stride_y - pad_top),  oy * stride_y - pad_top  + (bh - 1) * stride_y + dilated_kernel_h)
+        #   cols  [max(0, ox * stride_x - pad_left), ox * stride_x - pad_left + (bw - 1) * stride_x + dilated_kernel_w)
+        # where (ox, oy) is the block's origin = get_offset_block_coords(ofm, ofm_block, block_offset // depth_blocks)
+        "implies(result is not None, result[0].y == max(0, ru.get_offset_block_coords(ofm, ofm_block, block_offset // nblocks(ifm.z2 - ifm.z + 1, ifm_block_depth)).y * kernel.stride.y - padding.top))",
+        "implies(result is not None, result[0].x == max(0, ru.get_offset_block_coords(ofm, ofm_block, block_offset // nblocks(ifm.z2 - ifm.z + 1, ifm_block_depth)).x * kernel.stride.x - padding.left))",
+        "implies(result is not None, result[1].y >= ru.get_offset_block_coords(ofm, ofm_block, block_offset // nblocks(ifm.z2 - ifm.z + 1, ifm_block_depth)).y * kernel.stride.y - padding.top"
+        " + (ofm_block.height - 1) * kernel.stride.y + (kernel.height - 1) * kernel.dilation.y + 1)",
+        "implies(result is not None, result[1].x >= ru.get_offset_block_coords(ofm, ofm_block, block_offset // nblocks(ifm.z2 - ifm.z + 1, ifm_block_depth)).x * kernel.stride.x - padding.left"
+        " + (ofm_block.width - 1) * kernel.stride.x + (kernel.width - 1) * kernel.dilation.x + 1)",
+        "implies(result is not None, result[0].z == ifm.z + (block_offset % nblocks(ifm.z2 - ifm.z + 1, ifm_block_depth)) * ifm_block_depth and result[1].z == result[0].z + ifm_block_depth)",
+        "(result is None) == (ru.get_offset_block_coords(ofm, ofm_block, block_offset // nblocks(ifm.z2 - ifm.z + 1, ifm_block_depth)) is None)",
+    ],
+)
